@@ -213,6 +213,12 @@ func propC10(r *kernel.Run) {
 		case "key-already-registered":
 			sp = HonestSpec(b.id)
 		}
+		if tp.Draw(4) == 0 {
+			// the bundle's "key id derived from the public key" field is the node's to fill: naming another node's record
+			// changes nothing (the ID of a record is derived from its key by the server)
+			sp.Id = b.id.KeyId
+			r.Count("fault.inner_request_names_other_record_id", 1)
+		}
 		inner, _ := BuildFetch(sp)
 		if innerClass == "bad-signature" {
 			inner.BundleSignature[tp.Draw(64)] ^= 0x40
